@@ -5,7 +5,7 @@ From Coq Require Import extraction.Extraction extraction.ExtrOcamlBasic.
 From IKE Require Import Lib.Base Prim.Hmac Spec.PrfPlus Impl.EapAkaPrf Impl.Msg Impl.Eap Impl.Payloads Impl.Message Prim.Cbc Impl.Security Impl.Ike Spec.Modp Impl.Dh Impl.Registry Impl.Build Spec.Wire Spec.WireParse.
 Extraction Language OCaml.
 Extraction "model.ml"
-  b2n n2b be_val nat_of N.of_nat
+  b2n n2b be_val N.of_nat
   hmac stream prf_plus slice hlen
   eap_aka_prime_prf
   aka_set_attr aka_get aka_sort aka_marshal aka_unmarshal expanded_unmarshal simple_unmarshal
